@@ -103,8 +103,24 @@ def q_cof_any_distance():
                  desc="from_distance(a, d) is a + d fifths for unbounded a, d")
 
 
+def q_repeatable():
+    """the tables are constants: asking twice gives the same answer"""
+    def fn(ctx):
+        k = ctx.int("key", 0, 14)
+        n = ctx.int("n")
+        a = ctx.int("a")
+        d = ctx.int("d")
+        r1 = Key.transpose_key(KEYS[k], n)
+        r2 = Key.transpose_key(KEYS[k], n)
+        l1 = CircleOfFifths.from_distance(a, d)
+        l2 = CircleOfFifths.from_distance(a, d)
+        ctx.must("same_answer_twice", r1 is r2 and l1 == l2)
+        return [str(r1), l1]
+    return Query("repeatable", fn, ["same_answer_twice"], desc="the same question twice in one process")
+
+
 def queries(tier, seed):
-    return [q_transpose(), q_compose(), q_major(), q_cof(), q_cof_any_distance()]
+    return [q_repeatable(), q_transpose(), q_compose(), q_major(), q_cof(), q_cof_any_distance()]
 
 
 # ---- independent second opinion: CrossHair (pre-installed symbolic executor) on the same pure functions
